@@ -138,4 +138,40 @@ theorem raceFree_referentGuarded (cs : List String) (accs : List Acc) (h : raceF
     · exact Or.inl (Or.inl (Or.inr hlock))
   · exact Or.inl (Or.inl (Or.inl hobj))
 
+/-- `stageClass … ≠ "mutable"` unfolded: every write the evaluation-time code makes to the variable (or to what it
+    refers to) is atomic / self-synchronised. -/
+theorem stageClass_not_mutable_iff (accs : List Acc) (f : String) :
+    stageClass accs f ≠ "mutable" ↔
+      ∀ a ∈ accs, a.depth ≠ 0 → a.field = f → a.write = true → a.atomic = true := by
+  unfold stageClass classOfWrites evalWrites
+  simp only []
+  constructor
+  · intro h a ha hd hf hw
+    have hm : a ∈ (accs.filter fun a => a.depth != 0 && a.write).filter fun a => a.field == f := by
+      simp [List.mem_filter, ha, hd, hf, hw]
+    split at h
+    · rename_i h1
+      rw [List.isEmpty_iff] at h1
+      rw [h1] at hm
+      cases hm
+    · split at h
+      · rename_i h2
+        have := List.all_eq_true.mp h2 a hm
+        simp at this
+        exact this.1
+      · split at h
+        · rename_i h3
+          exact List.all_eq_true.mp h3 a hm
+        · exact absurd rfl h
+  · intro h
+    have h3 : (((accs.filter fun a => a.depth != 0 && a.write).filter fun a => a.field == f).all (·.atomic)) = true := by
+      rw [List.all_eq_true]
+      intro a ha
+      simp only [List.mem_filter, Bool.and_eq_true, bne_iff_ne, ne_eq, beq_iff_eq] at ha
+      exact h a ha.1.1 ha.1.2.1 ha.2 ha.1.2.2
+    split
+    · decide
+    · split
+      · decide
+      · first | decide | (rw [if_pos h3]; decide)
 end Rare.Lockset
